@@ -116,9 +116,14 @@ for _k in sorted(set(_TIE) | {'C10', 'C11', 'C14', 'C15'}):
     PROPS[_k]['tie_defs'] = PROPS[_k].get('tie_defs', []) + [r'^A\.']
     PROPS[_k]['extra_modules'] = PROPS[_k].get('extra_modules', []) + ['Daac.Props.TieAcc']
 # pattern insertion: NfaBuilder::{new, add, is_registered, child_id} (generated N.*; tools/nfa2lean.py), refinement to the model trie
-for _k in ('C04', 'C10', 'C15'):
+# ... and the fail-link / output passes build_fails, build_fails_leftmost, build_outputs (Proofs/TieF*)
+for _k in ('C01', 'C02', 'C03', 'C04', 'C05', 'C10', 'C13', 'C15'):
     PROPS[_k]['tie_defs'] = PROPS[_k].get('tie_defs', []) + [r'^N\.']
     PROPS[_k]['extra_modules'] = PROPS[_k].get('extra_modules', []) + ['Daac.Props.TieNfa']
+# the byte-wise DFS layout loop build_double_array (generated DB.*; tools/dbl2lean.py), simulation to the model's layoutLoop
+for _k in ('C01', 'C02', 'C03', 'C04', 'C05', 'C07', 'C10', 'C11', 'C13', 'C14', 'C15'):
+    PROPS[_k]['tie_defs'] = PROPS[_k].get('tie_defs', []) + [r'^DB\.']
+    PROPS[_k]['extra_modules'] = PROPS[_k].get('extra_modules', []) + ['Daac.Props.TieLayout', 'Daac.Props.TiePipeline']
 for _k, (_s, _r) in _NOTES.items():
     PROPS[_k]['statement'] = _s
     PROPS[_k]['residue'] = _r
